@@ -96,6 +96,9 @@ def _run_child(prop, task, wfd, tier, wall):
         rec['extra'] = c.extra
         ctxmod._write_all(wfd, (json.dumps(rec, default=repr) + '\n').encode())
         os.chdir('/')
+        if os.environ.get('DFSIM_KEEP_SCRATCH'):
+            # debugging aid: copy the run's scratch directory aside before it is removed
+            shutil.copytree(scratch, os.path.join(os.environ['DFSIM_KEEP_SCRATCH'], os.path.basename(scratch)), symlinks=True, dirs_exist_ok=True)
         shutil.rmtree(scratch, ignore_errors=True)
         code = 0
     except BaseException:  # noqa
